@@ -42,12 +42,17 @@ def make_algo(name, hp):
     from lerax.algorithm import A2C, DQN, PPO, REINFORCE, SAC
 
     E, S = hp["num_envs"], hp["num_steps"]
+    lr = 3e-3
+    if hp.get("warmup"):  # a learning-rate schedule that starts at zero: only an optimiser state that advances ever moves the policy
+        import optax
+
+        lr = optax.linear_schedule(0.0, 3e-3, 2)
     if name == "PPO":
-        return PPO(num_envs=E, num_steps=S, num_batches=hp["num_batches"], num_epochs=hp["num_epochs"], learning_rate=3e-3)
+        return PPO(num_envs=E, num_steps=S, num_batches=hp["num_batches"], num_epochs=hp["num_epochs"], learning_rate=lr)
     if name == "A2C":
-        return A2C(num_envs=E, num_steps=S, learning_rate=3e-3)
+        return A2C(num_envs=E, num_steps=S, learning_rate=lr)
     if name == "REINFORCE":
-        return REINFORCE(num_envs=E, num_steps=S, learning_rate=3e-3)
+        return REINFORCE(num_envs=E, num_steps=S, learning_rate=lr)
     if name == "DQN":
         return DQN(buffer_size=64, learning_starts=4, num_envs=E, num_steps=S, batch_size=4, target_update_interval=2, learning_rate=3e-3)
     return SAC(buffer_size=64, learning_starts=4, num_envs=E, num_steps=S, batch_size=4, q_width_size=8, q_depth=1, policy_lr=3e-3, q_lr=3e-3)
@@ -164,8 +169,11 @@ def oracle_learn(ctx: Ctx, case):
         base = run(case["key"], "none")
         again = run(case["key"], "none")
         ctx.check(identical(base, again), "C11/same-inputs-different-parameters", tags=tags)
-        other = run(case["key"] + 1, "none")
-        ctx.check(not identical(base, other), "C11/different-keys-identical-runs", tags=tags)
+        if not case.get("single_iteration"):
+            # (a single Adam step from a fresh state is lr*sign(g): two keys whose first gradients merely share their sign
+            # pattern legitimately give bit-identical parameters, so one-iteration runs are exempt from this clause)
+            other = run(case["key"] + 1, "none")
+            ctx.check(not identical(base, other), "C11/different-keys-identical-runs", tags=tags)
         trained = not identical(base, policy)
         ctx.check(trained, "C11/harness/training-did-not-change-the-policy", tags=tags)
         after = leaves(policy)
@@ -200,7 +208,7 @@ def run(ctx: Ctx):
         "hyper-parameters and keys: learn() twice with identical inputs (bit-identical array leaves required), once with another "
         "key (must differ), input policy compared with a host copy taken beforehand, and once per observer set (equal up to reassociation-level rounding: rtol 1e-4 / atol 1e-5, integer leaves exactly; see DESIGN 5.3) (None, [], a no-op "
         "callback, ProgressBar, LoggingCallback with a recording back end, LoggingCallback with Console+TensorBoard, a list of two) "
-        "against the unobserved run; plus one single-iteration run per algorithm (same key twice, another key, purity). Non-trivial: training changed the policy and at least one observer set was attached; distinct "
+        "against the unobserved run; plus one single-iteration run per algorithm (determinism, purity, policy moved; exempt from the other-key clause because a first Adam step is sign-only) and one three-iteration run per on-policy algorithm with a learning-rate warm-up schedule starting at 0 (same key twice, another key, purity). Non-trivial: training changed the policy and at least one observer set was attached; distinct "
         "by (algorithm, env, hyper-parameters, key, observer sets)."
     )
     ctx.assumptions = ["bit-identity within one process / XLA build", "observer output is captured (stdout/stderr redirected, TensorBoard in a temp dir)"]
@@ -223,8 +231,12 @@ def run(ctx: Ctx):
                 sets = list(CALLBACK_SETS[1:]) if not ctx.quick else ["empty_list", "list_of_two", str(rng.choice(["noop", "progress", "logging_recording", "logging_console_tb"]))]
                 cases.append({"algo": name, "env": env_name, "hp": hp, "total": E * S * iters + int(rng.integers(0, E * S)), "key": int(rng.integers(0, 2**31 - 10)), "pkey": int(rng.integers(0, 2**31 - 10)), "callback_sets": sets})
             payloads.append(cases)
+        if name in ("PPO", "A2C", "REINFORCE"):
+            E, S = int(rng.choice([1, 2])), int(rng.choice([2, 4]))
+            hp = {"num_envs": E, "num_steps": S, "num_batches": 1, "num_epochs": 1, "warmup": True}
+            payloads.append([{"algo": name, "env": envs[name][0], "hp": hp, "total": E * S * 3, "key": int(rng.integers(0, 2**31 - 10)), "pkey": int(rng.integers(0, 2**31 - 10)), "callback_sets": [], "short": True}])
         # the shortest possible run (a single iteration, no observers): determinism, purity and key-dependence must already hold
         E, S = int(rng.choice([1, 2])), int(rng.choice([1, 3]))
         hp = {"num_envs": E, "num_steps": S, "num_batches": 1, "num_epochs": 1}
-        payloads.append([{"algo": name, "env": envs[name][0], "hp": hp, "total": E * S + int(rng.integers(0, E * S)), "key": int(rng.integers(0, 2**31 - 10)), "pkey": int(rng.integers(0, 2**31 - 10)), "callback_sets": [], "short": True}])
+        payloads.append([{"algo": name, "env": envs[name][0], "hp": hp, "total": E * S + int(rng.integers(0, E * S)), "key": int(rng.integers(0, 2**31 - 10)), "pkey": int(rng.integers(0, 2**31 - 10)), "callback_sets": [], "short": True, "single_iteration": True}])
     run_pool(ctx, "checks.c11_reproducibility", "worker", payloads, procs=10)
